@@ -212,6 +212,9 @@ func main() {
 		if seen[key] || (d.Check == "single_section" && len(byFunc[d.Func]) > 0) {
 			continue // a function that is not even well locked is reported once, with its field
 		}
+		if d.Kind != "double-acquire" && hasKind(byFunc[d.Func], "double-acquire") {
+			continue // what the checker says after a re-acquisition (the inner release etc.) is a consequence of it
+		}
 		seen[key] = true
 		res.Count("static_violation_" + d.Check)
 		var same []diag
@@ -249,10 +252,29 @@ func main() {
 				if strings.HasPrefix(ev.B, "(full relay") {
 					rc.Kind = "relay"
 				}
-				detail += fmt.Sprintf("; reproduced: %s concurrently with %s (%s build) -> %s", ev.A, ev.B, ev.Mode, firstLine(ev.Evidence))
+				if strings.HasPrefix(ev.Evidence, "@@HANG") {
+					rc.Kind = "selfdeadlock"
+					detail += "; reproduced: " + firstHang(ev.Evidence)
+				} else if strings.HasPrefix(ev.Evidence, "@@CORRUPT") {
+					rc.Kind = "bigframes"
+					detail += "; reproduced on a real relay: " + strings.SplitN(strings.TrimPrefix(ev.Evidence, "@@CORRUPT "), "\n", 2)[0]
+				} else {
+					detail += fmt.Sprintf("; reproduced: %s concurrently with %s (%s build) -> %s", ev.A, ev.B, ev.Mode, firstLine(ev.Evidence))
+				}
 				res.Count("violation_reproduced")
 			} else {
 				detail += "; the search (offending method against each conflicting method of the store, race build and plain build, " + budget.String() + ") found no failing execution: no-failing-input-found"
+				res.Count("violation_not_reproduced")
+			}
+		} else if d.Kind == "double-acquire" {
+			found, ev := searchSelfDeadlock(d, rng.Fork())
+			rc.Tried = ev.Tried
+			if found {
+				rc.Kind, rc.Store, rc.A, rc.B, rc.Mode, rc.Evidence = "selfdeadlock", ev.Store, ev.A, ev.B, "race", ev.Evidence
+				detail += "; reproduced: " + firstHang(ev.Evidence)
+				res.Count("violation_reproduced")
+			} else {
+				detail += "; calling the method concurrently did not make it hang within the search budget: no-failing-input-found"
 				res.Count("violation_not_reproduced")
 			}
 		} else if d.Check == "lock_order" {
@@ -297,6 +319,15 @@ func main() {
 	}
 }
 
+func hasKind(ds []diag, kind string) bool {
+	for _, d := range ds {
+		if d.Kind == kind {
+			return true
+		}
+	}
+	return false
+}
+
 func fieldLabel(f string) string {
 	if i := strings.LastIndex(f, ":"); i >= 0 {
 		return f[i+1:]
@@ -305,6 +336,14 @@ func fieldLabel(f string) string {
 }
 
 func clauseOf(d diag) string {
+	switch d.Kind {
+	case "double-acquire":
+		return "self-deadlock"
+	case "buffer-shared-across-goroutines":
+		return "buffer-shared-across-goroutines"
+	case "write-after-publication":
+		return "write-after-publication"
+	}
 	switch d.Check {
 	case "well_locked":
 		return "unsynchronised-access"
@@ -326,6 +365,14 @@ func describe(d diag) string {
 		return fmt.Sprintf("writes guarded field %s without holding %s (%s)", d.Field, d.Lock, d.Pos)
 	case "write-after-publication":
 		return fmt.Sprintf("assigns field %s of an object that other goroutines can already reach (it was sent / passed on / registered earlier, or was not built here): readers under Hub.mu are not synchronised with this write (%s)", strings.TrimSuffix(d.Field, " (after publication)"), d.Pos)
+	case "double-acquire":
+		return fmt.Sprintf("acquires %s while it already holds it (sync.Mutex / RWMutex are not re-entrant: the goroutine blocks for ever, still holding the lock, and everything that needs the lock after it) (%s)", d.Lock, d.Pos)
+	case "release-of-lock-not-held":
+		return fmt.Sprintf("releases %s without holding it (%s)", d.Lock, d.Pos)
+	case "return-while-holding", "end-of-function-while-holding":
+		return fmt.Sprintf("returns while still holding %s (%s)", d.Lock, d.Pos)
+	case "buffer-shared-across-goroutines":
+		return fmt.Sprintf("%s (%s)", d.Lock, d.Pos)
 	case "write-under-read-lock":
 		return fmt.Sprintf("writes guarded field %s while holding %s only for reading (%s)", d.Field, d.Lock, d.Pos)
 	}
@@ -404,6 +451,27 @@ func replay(res *lib.Result, rep *report, rc replayCase) {
 		} else {
 			res.Notes = append(res.Notes, "replay: no race report / fatal error this time")
 		}
+	case "bigframes":
+		res.Evaluations = 1
+		for try := int64(1); try <= 2; try++ {
+			out := runRelayChildMode(1, try, "bigframes")
+			if i := strings.Index(out, "@@CORRUPT "); i >= 0 {
+				res.Violate(lib.Violation{Clause: "delivered-frame-corrupted", Case: -1, Key: "replay",
+					Detail: "replayed: " + strings.SplitN(out[i+len("@@CORRUPT "):], "\n", 2)[0], Replay: rc})
+				return
+			}
+		}
+		res.Notes = append(res.Notes, "replay: all large frames arrived intact this time")
+	case "selfdeadlock":
+		res.Evaluations = 1
+		for try := int64(1); try <= 2; try++ {
+			out := runPair(rc.Store, rc.A, rc.A, "race", 8*time.Second, try)
+			if hung, txt := hangEvidence(out); hung {
+				res.Violate(lib.Violation{Clause: "unsynchronised-access", Case: -1, Key: "replay", Detail: "replayed: " + firstHang(txt), Replay: rc})
+				return
+			}
+		}
+		res.Notes = append(res.Notes, "replay: the calls kept returning this time")
 	case "hang":
 		res.Evaluations = 1
 		for try := int64(1); try <= 2; try++ {
